@@ -13,9 +13,16 @@
 // retention syntax, priorities, comments, key spelling) and therefore knows the interval a series must get: first
 // retention of the first rule - highest priority, then file order - whose pattern matches the series as Graphite
 // presents it ("name" or "name;tag1;tag2" with sorted tags). White-box: route.parseMetric through an overlay
-// accessor, then MetricData.MarshalMsg / UnmarshalMsg (the bytes the kafkaMdm route hands to sarama; there is no
-// broker here, the Kafka route is decided at that boundary only). Black-box: a real grafanaNet route posting to an
-// httptest server that undoes snappy framing + the metrictank message header + msgp.
+// accessor, then MetricData.MarshalMsg / UnmarshalMsg one record at a time. Black-box: a real grafanaNet route posting
+// to an httptest server that undoes snappy framing + the metrictank message header + msgp, and a real kafkaMdm route
+// (NewKafkaMdm, flushMaxNum 2..50) producing to sarama's in-process MockBroker, whose received messages are decoded
+// one by one (kafka.go).
+//
+// Rules of a schemas file come from two generators: patterns derived from the series of the case (genPattern), and
+// patterns from a regular-expression grammar (schemagrammar.go: anchored / unanchored, optional atoms, counted
+// repeats, classes, groups, alternation, escaped dots) from which series names are derived in turn - with and
+// without the optional parts, random repetition counts, near misses. Which rule a name must get is decided by Go's
+// regexp, rule by rule in matching order.
 package main
 
 import (
@@ -734,10 +741,12 @@ type ruleD struct {
 	Name    string `json:"name"`
 	Pattern string `json:"pattern"`
 	Kind    string `json:"kind"`
+	Shape   string `json:"shape,omitempty"` // grammar rules: the constructs the pattern is made of
 	Rets    []retD `json:"retentions"`
 	Prio    *int   `json:"priority,omitempty"`
 	re      *regexp.Regexp
 	text    string
+	gram    *gramPattern
 }
 
 type schemaCase struct {
@@ -842,6 +851,11 @@ func genPattern(r *mon.Rng, name string, tags []string) (string, string) {
 type seriesD struct {
 	name string
 	tags []string
+	// series derived from a grammar rule: the rule's name, how it was derived (min | max | rand | near) and whether
+	// an optional part of the pattern really was left out
+	origin  string
+	mode    string
+	omitted bool
 }
 
 func genSchemaCase(seed uint64, idx int) (schemaCase, []seriesD) {
@@ -859,9 +873,22 @@ func genSchemaCase(seed uint64, idx int) (schemaCase, []seriesD) {
 	nr := r.Range(1, 8)
 	perm := r.Perm(len(intervals))
 	for k := 0; k < nr; k++ {
-		s := pool[r.Intn(len(pool))]
-		pat, kind := genPattern(r, s.name, s.tags)
-		rule := ruleD{Name: fmt.Sprintf("r%d", k), Pattern: pat, Kind: kind}
+		rule := ruleD{Name: fmt.Sprintf("r%d", k)}
+		if r.Chance(1, 2) {
+			// a pattern from the grammar; the pool gets names derived from it
+			gp := genGramPattern(r)
+			rule.Pattern, rule.Kind, rule.Shape, rule.gram = gp.Src, "grammar", gp.Shape, gp
+			for _, gn := range gp.names(r) {
+				sd := seriesD{name: gn.name, origin: rule.Name, mode: gn.mode, omitted: gn.omitted}
+				if r.Chance(1, 4) {
+					sd.tags = genTags(r, r.Range(1, 3))
+				}
+				pool = append(pool, sd)
+			}
+		} else {
+			s := pool[r.Intn(len(pool))]
+			rule.Pattern, rule.Kind = genPattern(r, s.name, s.tags)
+		}
 		secs := intervals[perm[k]]
 		nret := r.PickInt([]int{1, 1, 2, 3})
 		mult := 1
@@ -983,6 +1010,9 @@ type mdExp struct {
 	rule     int
 	matching int
 	tagged   bool
+	origin   string
+	mode     string
+	omitted  bool
 }
 
 // validTag: Graphite's rules for a tag (key=value, both non-empty, key without ;!^= , value without ; and not starting with ~)
@@ -1006,7 +1036,7 @@ func genMDLine(r *mon.Rng, c *schemaCase, pool []seriesD, k int) mdExp {
 	if r.Chance(4, 5) {
 		s = pool[r.Intn(len(pool))]
 		if r.Chance(1, 4) { // same name, other tags
-			s = seriesD{name: s.name}
+			s.tags = nil
 			if r.Bool() {
 				s.tags = genTags(r, r.Range(1, 3))
 			}
@@ -1076,6 +1106,7 @@ func genMDLine(r *mon.Rng, c *schemaCase, pool []seriesD, k int) mdExp {
 		}
 	}
 	e.tagged = len(e.tags) > 0
+	e.origin, e.mode, e.omitted = s.origin, s.mode, s.omitted
 	e.pres = presentation(e.name, e.tags)
 	v, err := strconv.ParseFloat(vt, 64)
 	if err != nil {
@@ -1086,6 +1117,13 @@ func genMDLine(r *mon.Rng, c *schemaCase, pool []seriesD, k int) mdExp {
 	e.rule, e.matching = c.expectRule(e.pres)
 	e.interval = c.Rules[e.rule].Rets[0].Secs
 	return e
+}
+
+func kindOf(ru ruleD) string {
+	if ru.Shape != "" {
+		return ru.Shape
+	}
+	return ru.Kind
 }
 
 func taggedness(b bool) string {
@@ -1131,7 +1169,7 @@ func compareMD(res *mon.Result, via string, c *schemaCase, e mdExp, md *schema.M
 			}
 		}
 		res.Violate("metricdata-interval:"+taggedness(e.tagged)+":"+via,
-			fmt.Sprintf("line %q presented as %q: Interval %d (%s), expected %d from rule [%s] %s (%s)", e.Line, e.pres, md.Interval, got, e.interval, c.Rules[e.rule].Name, c.Rules[e.rule].Pattern, c.Rules[e.rule].Kind), w())
+			fmt.Sprintf("line %q presented as %q: Interval %d (%s), expected %d from rule [%s] %s (%s)", e.Line, e.pres, md.Interval, got, e.interval, c.Rules[e.rule].Name, c.Rules[e.rule].Pattern, kindOf(c.Rules[e.rule])), w())
 	}
 }
 
@@ -1223,7 +1261,7 @@ func (s *mdStats) add(k string, n int) {
 	s.mu.Unlock()
 }
 
-func schemaCaseRun(res *mon.Result, tbl *table.Table, g *gnServer, aggFile string, idx int, nLines int, blackBox bool, st *mdStats) {
+func schemaCaseRun(res *mon.Result, tbl *table.Table, g *gnServer, aggFile string, idx int, nLines int, blackBox, kafka bool, st *mdStats) {
 	seed := mon.Seed()
 	c, pool := genSchemaCase(seed, idx)
 	dir := filepath.Join(mon.Scratch(), "schemas")
@@ -1233,7 +1271,7 @@ func schemaCaseRun(res *mon.Result, tbl *table.Table, g *gnServer, aggFile strin
 		panic(err)
 	}
 	defer os.Remove(file)
-	res.LogCase("schemas case %d: %d rules, orgId %d, %d lines, blackbox=%v", idx, len(c.Rules), c.OrgID, nLines, blackBox)
+	res.LogCase("schemas case %d: %d rules, orgId %d, %d lines, grafanaNet=%v kafkaMdm=%v", idx, len(c.Rules), c.OrgID, nLines, blackBox, kafka)
 	wit := func(extra map[string]interface{}) map[string]interface{} {
 		w := map[string]interface{}{"case": idx, "seed": seed, "schemas_file": c.File, "orgId": c.OrgID, "regenerate": fmt.Sprintf("genSchemaCase(seed, %d); lines genMDLine(NewRng(seed,1611,%d), ...)", idx, idx)}
 		for k, v := range extra {
@@ -1279,6 +1317,19 @@ func schemaCaseRun(res *mon.Result, tbl *table.Table, g *gnServer, aggFile strin
 		}
 		if e.rule != len(c.Rules)-1 && c.Rules[e.rule].Kind != "default" {
 			loc["md_lines_deciding_non_default_rule"]++
+		}
+		if ru := c.Rules[e.rule]; ru.gram != nil {
+			loc["md_lines_deciding_grammar_rule"]++
+			if ru.gram.optional {
+				loc["md_lines_deciding_grammar_rule_with_optional_atom"]++
+			}
+			if e.mode == "min" && e.omitted && ru.Name == e.origin {
+				// the class of name a textual shortcut in front of the regex gets wrong
+				loc["md_lines_optional_part_omitted_deciding_own_rule"]++
+			}
+		}
+		if e.mode != "" {
+			loc["md_lines_grammar_name_"+e.mode]++
 		}
 		// the Kafka route: SetId, then MarshalMsg is what goes to sarama
 		md.SetId()
@@ -1386,6 +1437,20 @@ func schemaCaseRun(res *mon.Result, tbl *table.Table, g *gnServer, aggFile strin
 			go rt.Shutdown() // GrafanaNet.Shutdown may never return (C17's subject); do not wait for it
 		}
 	}
+	if kafka {
+		kafkaBatchRun(res, &c, file, idx, exps, r, wit, loc)
+	}
+	for _, ru := range c.Rules {
+		if ru.gram != nil {
+			loc["grammar_rules"]++
+			if ru.gram.optional {
+				loc["grammar_rules_with_optional_atom"]++
+			}
+			if ru.gram.anchored {
+				loc["grammar_rules_anchored"]++
+			}
+		}
+	}
 	for k, v := range loc {
 		st.add(k, v)
 	}
@@ -1448,13 +1513,13 @@ func main() {
 	skip := func(where string, n int) bool { return replayWhere != "" && (replayWhere != where || replayN != n) }
 	res := mon.NewResult("C16")
 	mon.InitRepo()
-	res.Rule = "(1) lines '<unique id>.<path>[;tags] <value> <timestamp>' generated from (seed, index): every float spelling (ints, decimals, exponents, leading/trailing dot, +, inf, nan, 17-40 digit numbers, subnormals, hex floats), timestamps 0..2^32-1 incl. boundaries and leading zeros, plus lines that cannot be represented (timestamp with fraction / negative / > 2^32-1 / text, non-numeric value, 2 or 4 fields), through a real pickle-mode destination and through ParseDataPoint+Pickle; (2) storage-schemas cases: 1-8 rules derived from the series of the case (exact, ^prefix, suffix$, unanchored, tag-suffix$, sorted-tag-pair, alternation, class) + catch-all, priorities, 1-3 retentions in old and new syntax, 200 lines per case (tags shuffled, 40% tagged series, invalid tags / timestamps mixed in). non-trivial = a pickle batch whose frames were decoded by CPython, or a schemas case in which a line was matched by >= 2 non-default rules and tagged lines occurred; distinct = batches + cases"
+	res.Rule = "(1) lines '<unique id>.<path>[;tags] <value> <timestamp>' generated from (seed, index): every float spelling (ints, decimals, exponents, leading/trailing dot, +, inf, nan, 17-40 digit numbers, subnormals, hex floats), timestamps 0..2^32-1 incl. boundaries and leading zeros, plus lines that cannot be represented (timestamp with fraction / negative / > 2^32-1 / text, non-numeric value, 2 or 4 fields), through a real pickle-mode destination and through ParseDataPoint+Pickle; (2) storage-schemas cases: 1-8 rules, each either derived from a series of the case (exact, ^prefix, suffix$, unanchored, tag-suffix$, sorted-tag-pair, alternation, class) or generated from a regex grammar (anchored/unanchored, optional atoms ? * {0,n}, counted repeats, classes, groups, alternation, escaped and optional dots) with series names derived from the pattern tree (optional parts present / left out, random counts, near misses) + catch-all, priorities, 1-3 retentions in old and new syntax, 150-300 lines per case (tags shuffled, tagged series, invalid tags / timestamps mixed in), through parseMetric, every 4th-8th case also through a real grafanaNet route and through a real kafkaMdm route (flushMaxNum 2-50, 1-8 partitions, codecs none/snappy) whose messages are read back from sarama's MockBroker. non-trivial = a pickle batch whose frames were decoded by CPython, or a schemas case in which a line was matched by >= 2 non-default rules and tagged lines occurred; distinct = batches + cases"
 	res.Assume("CPython 3.11 pickle.loads(frame, encoding='bytes') is the reference decoder; name bytes are compared as bytes, and loading with encoding='utf-8' (what a python-3 carbon does) must give the same datapoint whenever the name is valid utf-8")
 	res.Assume("expected float64 value = Go strconv.ParseFloat of the token, cross-checked against python float() for every token python parses; floats are compared by bit pattern (equivalent to float.hex), NaN equals NaN")
 	res.Assume("timestamp spellings such as +5, 1e9, 1500000000.0 are not settled by the statement: emitted with the numerically equal timestamp or skipped and counted are both accepted")
 	res.Assume("pattern matching of the generated storage-schemas rules uses Go's regexp in the harness (the patterns are in the common subset of RE2 and Python re)")
 	res.Assume("series names have no empty nodes (MetricData.Validate collapses dots; out of scope of the statement)")
-	res.Assume("the Kafka route is decided at the parseMetric + SetId + MarshalMsg boundary (the bytes handed to sarama); there is no broker in the sandbox")
+	res.Assume("the Kafka side is sarama's in-process MockBroker (one topic, 1-8 partitions, always acknowledging); what Kafka receives = the message values of the produce requests the broker decoded, read from its request history")
 
 	py := startVerifier()
 	pst := &pickleStats{}
@@ -1502,6 +1567,7 @@ func main() {
 	nCases := mon.N(200, 4000)
 	nLines := mon.N(150, 300)
 	bbEvery := mon.N(4, 8) // every n-th case also runs through a real grafanaNet route
+	kfEvery := mon.N(4, 8) // ... and every n-th through a real kafkaMdm route
 	mst := &mdStats{m: map[string]int{}}
 	jobs := make(chan int, 16)
 	var wg sync.WaitGroup
@@ -1510,7 +1576,7 @@ func main() {
 		go func() {
 			defer wg.Done()
 			for idx := range jobs {
-				schemaCaseRun(res, tbl, g, aggFile, idx, nLines, idx%bbEvery == 0 || replayWhere == "case", mst)
+				schemaCaseRun(res, tbl, g, aggFile, idx, nLines, idx%bbEvery == 0 || replayWhere == "case", idx%kfEvery == 1 || replayWhere == "case", mst)
 			}
 		}()
 	}
@@ -1547,5 +1613,9 @@ func main() {
 	res.Floor("md_compared_whitebox", mst.m["md_compared_whitebox"], mon.N(20000, 800000))
 	res.Floor("md_compared_blackbox", mst.m["md_compared_blackbox"], mon.N(5000, 100000))
 	res.Floor("md_lines_deciding_non_default_rule", mst.m["md_lines_deciding_non_default_rule"], mon.N(5000, 300000))
+	res.Floor("md_lines_deciding_grammar_rule", mst.m["md_lines_deciding_grammar_rule"], mon.N(2000, 60000))
+	res.Floor("md_lines_optional_part_omitted_deciding_own_rule", mst.m["md_lines_optional_part_omitted_deciding_own_rule"], mon.N(150, 4000))
+	res.Floor("md_compared_kafka", mst.m["md_compared_kafka"], mon.N(4000, 80000))
+	res.Floor("kafka_records_from_count_triggered_flushes", mst.m["kafka_records_from_count_triggered_flushes"], mon.N(2500, 50000))
 	res.Write()
 }
